@@ -330,6 +330,11 @@ func decodeMark(_ context.Context, cause error, _ string, _ []string, payload pr
 		// DecodeError use the opaque type.
 		return nil
 	}
+	if len(m.Types) == 0 {
+		// A mark always carries at least the type of the reference
+		// error. Without it the mark cannot be displayed or compared.
+		return nil
+	}
 	return &withMark{cause: cause, mark: errorMark{msg: m.Msg, types: m.Types}}
 }
 
